@@ -25,6 +25,10 @@ def run(tier, seed):
     # statements with an auxiliary segment evaluate several more interpolants per point: only the small ones
     stmts = [s for s in stmts if s["t"]["width"] <= 9 and s["t"]["ln"] + s["t"]["lb"] <= 12 and s["t"]["ln"] <= 7
              and (not s["t"]["auxd"] or s["t"]["ln"] <= (4 if tier == "quick" else 5))]
+    if tier != "quick" and len(stmts) > 4000:
+        # the depth-2 walk gives ~20 000 such statements (two hours of trace validation): every fifth, rotating with the seed
+        k = -(-len(stmts) // 4000)
+        stmts = stmts[seed % k::k]
     # make sure large assertion sequences and all five assertion kinds are present
     extra = []
     for s in stmts:
